@@ -63,7 +63,7 @@ MUTANTS = [
     dict(id="s3-timecorr-einsum-conj", props=["C14"], expect="silent", file=T, old=_TC_OLD, new="            results = np.einsum('tia,ia->t', condition, np.conj(condition[0])).real\n"),
     # type-pair cutoff table by fancy indexing
     dict(id="s3-cutoff-table-columns", props=["C05"], expect="silent", file=N, old=_CUT_OLD, new="    cutoffs = r_cut[:, snapshots.snapshots[0].particle_type - 1]\n"),
-    dict(id="s3-cutoff-table-transposed", props=["C05"], expect="fire", file=N, old=_CUT_OLD, new="    cutoffs = r_cut[snapshots.snapshots[0].particle_type - 1].T\n", mention="typed:table"),
+    dict(id="s3-cutoff-table-transposed", props=["C05"], expect="fire", file=N, old=_CUT_OLD, new="    cutoffs = r_cut[snapshots.snapshots[0].particle_type - 1].T\n", mention="typed:"),
     # vectorised delegated harmonics
     dict(id="s3-above-vectorised", props=["C08"], expect="silent", file=S, old=_ABOVE_OLD, new=_above("2 * np.pi")),
     dict(id="s3-above-vectorised-pi", props=["C08"], expect="fire", file=S, old=_ABOVE_OLD, new=_above("np.pi"), mention="azimuth"),
